@@ -19,7 +19,7 @@ open CpModel.Cache CpModel
 /-- The producing request and response allowed the response to be stored. -/
 def Storable (cfg : Cfg) (e : Ev) : Prop :=
   sNoStore ∉ e.r.cc ∧ e.p.noStore = false ∧ e.p.pragmaNoCache = false ∧ 0 < e.p.size ∧
-    e.p.size < cfg.maxobjSize ∧ e.r.method ∉ cfg.invalid
+    e.p.size < cfg.maxobjSize ∧ e.r.method ∉ cfg.invalid ∧ e.p.completes e.r = true
 
 /-- `L` is the log of the request events so far.  `P uri sel` is whatever is known about the
     selecting-header list of a resource, `Q r p` about the (request, plan) pairs of the history. -/
@@ -104,43 +104,47 @@ theorem runHandler_inv {w : World} {L : List Ev} (hI : Inv cfg P Q w L) (c : Cac
   simp only [runHandler, tee]
   split
   · exact shrinkCase c hc
-  · rename_i hns
+  · rename_i hcomp
     split
     · exact shrinkCase c hc
-    · rename_i hfl
+    · rename_i hns
       split
-      · exact shrinkCase _ ((delete_shrinks c r.uri).trans hc)
-      · rename_i hsz
-        refine ⟨?_, ?_, hsn.times, hsn.evs, hsn.gens⟩
-        · intro uri uc' key v h1 h2
-          dsimp only at h1
-          have newcase : uri = r.uri → key = uc'.sel.map (hget r) → v = ⟨w.nextGen, w.now⟩ →
-              p.size < cfg.maxobjSize →
-              ∃ e ∈ L ++ [⟨r, p, .miss w.nextGen true, w.now⟩], e.out = .miss v.gen true ∧ e.r.uri = uri ∧
-                key = uc'.sel.map (hget e.r) ∧ v.created = e.t ∧ Storable cfg e := by
-            intro hu hk hv hlim
-            refine ⟨⟨r, p, .miss w.nextGen true, w.now⟩, by simp, ?_, hu.symm, hk, ?_, ?_⟩
-            · rw [hv]
-            · rw [hv]
-            · refine ⟨hns, ?_, ?_, Nat.pos_of_ne_zero hsz, hlim, hm⟩
-              · cases hb : p.noStore <;> simp_all
-              · cases hb : p.pragmaNoCache <;> simp_all
-          rcases put_cases cfg c r p w.nextGen w.now uri uc' h1 with ⟨uc, g1, s1, v1⟩ | ⟨hu, _, _, v1⟩
-          · rcases v1 key v h2 with hold | ⟨hu, hk, hv, hlim⟩
-            · obtain ⟨uc0, g0, s0, v0⟩ := hc uri uc g1
-              obtain ⟨e, he, a, b, c', d⟩ := hI.vals uri uc0 key v g0 (v0 key v hold)
-              exact ⟨e, List.mem_append_left _ he, a, b, by rw [← s1, ← s0]; exact c', d⟩
-            · exact newcase hu hk hv hlim
-          · obtain ⟨hk, hv, hlim⟩ := v1 key v h2
-            exact newcase hu hk hv hlim
-        · intro uri uc' h1
-          dsimp only at h1
-          rcases put_cases cfg c r p w.nextGen w.now uri uc' h1 with ⟨uc, g1, s1, _⟩ | ⟨hu, _, hsel, _⟩
-          · obtain ⟨uc0, g0, s0, _⟩ := hc uri uc g1
-            rw [← s1, ← s0]
-            exact hI.sels uri uc0 g0
-          · rw [hu, hsel]
-            exact hP
+      · exact shrinkCase c hc
+      · rename_i hfl
+        split
+        · exact shrinkCase _ ((delete_shrinks c r.uri).trans hc)
+        · rename_i hsz
+          refine ⟨?_, ?_, hsn.times, hsn.evs, hsn.gens⟩
+          · intro uri uc' key v h1 h2
+            dsimp only at h1
+            have newcase : uri = r.uri → key = uc'.sel.map (hget r) → v = ⟨w.nextGen, w.now⟩ →
+                p.size < cfg.maxobjSize →
+                ∃ e ∈ L ++ [⟨r, p, .miss w.nextGen true, w.now⟩], e.out = .miss v.gen true ∧ e.r.uri = uri ∧
+                  key = uc'.sel.map (hget e.r) ∧ v.created = e.t ∧ Storable cfg e := by
+              intro hu hk hv hlim
+              refine ⟨⟨r, p, .miss w.nextGen true, w.now⟩, by simp, ?_, hu.symm, hk, ?_, ?_⟩
+              · rw [hv]
+              · rw [hv]
+              · refine ⟨hns, ?_, ?_, Nat.pos_of_ne_zero hsz, hlim, hm, ?_⟩
+                · cases hb : p.noStore <;> simp_all
+                · cases hb : p.pragmaNoCache <;> simp_all
+                · cases hb : p.completes r <;> simp_all
+            rcases put_cases cfg c r p w.nextGen w.now uri uc' h1 with ⟨uc, g1, s1, v1⟩ | ⟨hu, _, _, v1⟩
+            · rcases v1 key v h2 with hold | ⟨hu, hk, hv, hlim⟩
+              · obtain ⟨uc0, g0, s0, v0⟩ := hc uri uc g1
+                obtain ⟨e, he, a, b, c', d⟩ := hI.vals uri uc0 key v g0 (v0 key v hold)
+                exact ⟨e, List.mem_append_left _ he, a, b, by rw [← s1, ← s0]; exact c', d⟩
+              · exact newcase hu hk hv hlim
+            · obtain ⟨hk, hv, hlim⟩ := v1 key v h2
+              exact newcase hu hk hv hlim
+          · intro uri uc' h1
+            dsimp only at h1
+            rcases put_cases cfg c r p w.nextGen w.now uri uc' h1 with ⟨uc, g1, s1, _⟩ | ⟨hu, _, hsel, _⟩
+            · obtain ⟨uc0, g0, s0, _⟩ := hc uri uc g1
+              rw [← s1, ← s0]
+              exact hI.sels uri uc0 g0
+            · rw [hu, hsel]
+              exact hP
 
 theorem runHandler_out (w : World) (c : Cache) (r : Req) (p : Plan) :
     (runHandler cfg w c r p).2 = .miss w.nextGen true := rfl
@@ -443,7 +447,31 @@ theorem C15_no_store (cfg : Cfg) (ops : List Op) (pre : List Ev) (e : Ev) (post 
 theorem C15_no_store_step (cfg : Cfg) (w : World) (r : Req) (p : Plan)
     (h : sNoStore ∈ r.cc ∨ p.noStore = true ∨ p.pragmaNoCache = true) :
     Shrinks (request cfg w r p).1.cache.store w.cache.store :=
-  request_marked_shrinks cfg w r p h
+  request_marked_shrinks cfg w r p (by rcases h with h | h | h <;> simp [h])
+
+/-- **C15_complete_only** (one request).  From any state: when the handler raises, its body iterator
+    raises at any chunk, a streamed body is abandoned by the client, or a streamed response answers a
+    HEAD — i.e. whenever the response was not produced to its end — the request adds nothing to the
+    store; in fact the whole cache (placeholder included) is what the lookup left. -/
+theorem C15_complete_only_step (cfg : Cfg) (w : World) (r : Req) (p : Plan) (h : p.completes r = false) :
+    Shrinks (request cfg w r p).1.cache.store w.cache.store :=
+  request_marked_shrinks cfg w r p (Or.inr (Or.inr (Or.inr h)))
+
+/-- **C15_complete_only** (histories).  The producer of every response served from the cache ran to
+    completion: handler returned, body iterator exhausted without raising, and (streamed) fully read
+    by its client. -/
+theorem C15_complete_only (cfg : Cfg) (ops : List Op) (pre : List Ev) (e : Ev) (post : List Ev) (g a : Nat)
+    (hx : exec cfg {} ops = pre ++ e :: post) (hh : e.out = .hit g a) :
+    ∃ e' ∈ pre, e'.out = .miss g true ∧ e'.p.bodyOk = true ∧ (e'.p.stream = true → e'.p.drained = true ∧ e'.r.method ≠ sHead) := by
+  obtain ⟨e', he', sel, hm, _, _, _, _, _, _, _, _, _, hst⟩ := (hit_master cfg ops pre e post hx).1 g a hh
+  refine ⟨e', he', hm, ?_⟩
+  have hc := hst.2.2.2.2.2.2
+  simp only [Plan.completes, Bool.and_eq_true, Bool.or_eq_true, Bool.not_eq_true', decide_eq_true_eq] at hc
+  refine ⟨hc.1, ?_⟩
+  intro hs
+  rcases hc.2 with h | h
+  · rw [hs] at h; cases h
+  · exact h
 
 /-- **C15_invalidate.**  From any state: after a request with an invalidating method for a URI,
     whatever happens to other URIs and however the clock and the sweeper run, the next request
